@@ -634,8 +634,11 @@ class ListItem(BlockToken):
                 parse_buffer.loose = True
                 next_marker = cls.parse_marker(next_line) if next_line is not None else None
                 return (parse_buffer, indentation, prepend, leader, start_line), next_marker
+            # the marker line itself is not part of the item's content
+            content_start_line = start_line + 1
         else:
             line_buffer.append(content)
+            content_start_line = start_line
 
         # loop over the following lines, looking for the end of the list item
         breaking_tokens = [t for t in _token_types if hasattr(t, 'check_interrupts_paragraph') and not t == List]
@@ -677,7 +680,7 @@ class ListItem(BlockToken):
 
         # block-level tokens are parsed here, so that footnotes can be
         # recognized before span-level parsing.
-        parse_buffer = tokenizer.tokenize_block(line_buffer, _token_types, start_line=start_line)
+        parse_buffer = tokenizer.tokenize_block(line_buffer, _token_types, start_line=content_start_line)
         return (parse_buffer, indentation, prepend, leader, start_line), next_marker
 
 
